@@ -1,15 +1,177 @@
 package main
 
+// pkcheck: repository-specific static analyser for spq/pkappa2 (see /verif/DESIGN.md).
+//
+//   pkcheck -prop C13 -tier quick|thorough [-repo /repo] [-out /verif/evidence] [-kf /verif/known-findings.json]
+//
+// Exit 0: property's structural obligations all discharged (or listed as known findings).
+// Exit 1: prints "VIOLATION property=<id> replay=<evidence file>#<rule>|<construct>".
+// Exit 2: the analyser itself failed (load error); also printed as VIOLATION so that it is never silent.
+
 import (
+	"flag"
 	"fmt"
-	"golang.org/x/tools/go/packages"
+	"os"
+	"path/filepath"
+	"runtime/debug"
+	"sort"
+	"strconv"
+	"strings"
+	"time"
 )
 
-func main() {
-	cfg := &packages.Config{Mode: packages.LoadAllSyntax, Dir: "/repo"}
-	pkgs, err := packages.Load(cfg, "./cmd/...", "./internal/...")
-	fmt.Println(len(pkgs), err)
-	for _, p := range pkgs {
-		fmt.Println(p.PkgPath, len(p.Errors), p.Errors)
+type PropDef struct {
+	ID          string
+	Explanation string
+	Rules       []func(*Prog, *Res)
+}
+
+var registry = map[string]*PropDef{}
+
+func register(id, explanation string, rules ...func(*Prog, *Res)) {
+	registry[id] = &PropDef{ID: id, Explanation: explanation, Rules: rules}
+}
+
+// runProp runs all rules of a property on a loaded program.
+func runProp(p *Prog, def *PropDef) *Res {
+	r := &Res{Prop: def.ID}
+	p.anchorErrs = nil
+	for _, rule := range def.Rules {
+		func() {
+			defer func() {
+				if e := recover(); e != nil {
+					r.Bad("analyzer", "panic", "", fmt.Sprintf("analyzer panic: %v\n%s", e, debug.Stack()))
+				}
+			}()
+			rule(p, r)
+		}()
 	}
+	seen := map[string]bool{}
+	for _, a := range p.anchorErrs {
+		if !seen[a] {
+			seen[a] = true
+			r.Bad("anchor", a, "", "unresolved anchor: the construct a rule is tied to no longer exists under this name; the rule cannot be applied")
+		}
+	}
+	p.anchorErrs = nil
+	sortObls(r.Obls)
+	return r
+}
+
+func main() {
+	prop := flag.String("prop", "", "property id (C01..C20) or 'all'")
+	tier := flag.String("tier", "quick", "quick|thorough")
+	repo := flag.String("repo", "/repo", "repository root")
+	out := flag.String("out", "/verif/evidence", "evidence directory")
+	kfPath := flag.String("kf", "/verif/known-findings.json", "known findings file")
+	verif := flag.String("verif", "/verif", "verif root (mutants, seeded)")
+	verbose := flag.Bool("v", false, "print every obligation")
+	overlayFlag := flag.String("overlay", "", "comma-separated real=replacement file pairs (debugging)")
+	flag.Parse()
+	if *tier != "quick" && *tier != "thorough" {
+		fmt.Println("bad tier")
+		os.Exit(2)
+	}
+	if t := os.Getenv("VERIF_TIER"); t == "quick" || t == "thorough" {
+		_ = t // the explicit flag wins; the manifest passes the tier explicitly
+	}
+	seed := int64(0)
+	if s := os.Getenv("VERIF_SEED"); s != "" {
+		seed, _ = strconv.ParseInt(s, 10, 64)
+	}
+	var ids []string
+	if *prop == "all" {
+		for id := range registry {
+			ids = append(ids, id)
+		}
+		sort.Strings(ids)
+	} else {
+		for _, id := range strings.Split(*prop, ",") {
+			if registry[id] == nil {
+				fmt.Printf("unknown or unclaimed property %q\n", id)
+				os.Exit(2)
+			}
+			ids = append(ids, id)
+		}
+	}
+	absRepo, _ := filepath.Abs(*repo)
+	kf, err := loadKF(*kfPath)
+	if err != nil {
+		fmt.Printf("cannot read known findings %s: %v\n", *kfPath, err)
+		kf = nil
+	}
+	var overlay map[string][]byte
+	if *overlayFlag != "" {
+		overlay = map[string][]byte{}
+		for _, pair := range strings.Split(*overlayFlag, ",") {
+			kv := strings.SplitN(pair, "=", 2)
+			b, err := os.ReadFile(kv[1])
+			if err != nil {
+				fmt.Println(err)
+				os.Exit(2)
+			}
+			a, _ := filepath.Abs(kv[0])
+			overlay[a] = b
+		}
+	}
+	t0 := time.Now()
+	p, err := Load(absRepo, overlay)
+	if err != nil {
+		// never silent: every requested property fails
+		for _, id := range ids {
+			r := &Res{Prop: id}
+			r.Bad("load", "packages", "", err.Error())
+			o := r.finish(nil)
+			r.writeEvidence(*out, *tier, seed, time.Since(t0).Seconds(), o, nil, "load failed")
+			fmt.Printf("load error: %v\n", err)
+			fmt.Printf("VIOLATION property=%s replay=%s\n", id, filepath.Join(*out, id+".json"))
+		}
+		os.Exit(1)
+	}
+	fmt.Printf("loaded %d packages, %d functions (incl. literals) from %s in %.1fs\n", len(p.Pkgs), len(p.FnList), absRepo, time.Since(t0).Seconds())
+	exit := 0
+	for _, id := range ids {
+		t1 := time.Now()
+		def := registry[id]
+		r := runProp(p, def)
+		extra := map[string]any{}
+		if *tier == "thorough" {
+			st := runSelftest(absRepo, *verif, def, kf)
+			extra["selftest"] = st
+			for _, m := range st.Missed {
+				fmt.Printf("SELFTEST-MISS property=%s mutant=%s (the rule did not fire on a variant it should detect; checker weakness, not a violation of the tree)\n", id, m)
+			}
+			fmt.Printf("selftest %s: %d variants applied, %d detected, %d stale, %d not statically detectable (documented)\n", id, st.Applied, st.Detected, len(st.Stale), len(st.Undetectable))
+		}
+		o := r.finish(kf)
+		wall := time.Since(t1).Seconds() + time.Since(t0).Seconds() - time.Since(t1).Seconds()
+		if err := r.writeEvidence(*out, *tier, seed, wall, o, extra, def.Explanation); err != nil {
+			fmt.Printf("cannot write evidence: %v\n", err)
+			exit = 2
+		}
+		nd := 0
+		for _, ob := range r.Obls {
+			if ob.Verdict == "discharged" {
+				nd++
+			}
+			if *verbose {
+				fmt.Printf("  [%s] %s | %s | %s | %s\n", ob.Verdict, ob.Rule, ob.Key, ob.Pos, ob.Detail)
+			}
+		}
+		for _, fl := range r.Floors {
+			fmt.Printf("  floor %-34s confirmed>=%d found=%d\n", fl.Rule, fl.Want, fl.Got)
+		}
+		fmt.Printf("%s: %d obligations, %d discharged, %d known findings, %d violations\n", id, len(r.Obls), nd, len(o.Known), len(o.Violations))
+		for _, k := range o.Known {
+			fmt.Printf("KNOWN-FINDING: property=%s %s | %s | %s | %s\n", id, k.Rule, k.Key, k.Pos, k.Detail)
+		}
+		for _, v := range o.Violations {
+			fmt.Printf("  %s: [%s] %s | %s\n      %s\n", v.Verdict, v.Rule, v.Key, v.Pos, v.Detail)
+			fmt.Printf("VIOLATION property=%s replay=%s#%s|%s\n", id, filepath.Join(*out, id+".json"), strings.ReplaceAll(v.Rule, " ", "_"), strings.ReplaceAll(v.Key, " ", "_"))
+			if exit == 0 {
+				exit = 1
+			}
+		}
+	}
+	os.Exit(exit)
 }
